@@ -1038,6 +1038,11 @@ class PlusMinusPlugin(Plugin):
         optional = syntax.OrGroup()
         banned = syntax.OrGroup()
 
+        # This filter works on a flat group; + and - markers inside nested
+        # groups have no meaning and are dropped (left in place they would
+        # make the parser fail)
+        group = self._strip_nested_markers(group, top=True)
+
         # If the top-level group is an AndGroup we make everything "required" by default
         if isinstance(group, syntax.AndGroup):
             optional = syntax.AndGroup()
@@ -1063,6 +1068,17 @@ class PlusMinusPlugin(Plugin):
         if banned:
             group = syntax.AndNotGroup([group, banned])
         return group
+
+
+    def _strip_nested_markers(self, group, top=False):
+        newgroup = group.empty_copy()
+        for node in group:
+            if isinstance(node, syntax.GroupNode):
+                node = self._strip_nested_markers(node)
+            elif not top and isinstance(node, (self.Plus, self.Minus)):
+                continue
+            newgroup.append(node)
+        return newgroup
 
 
 class GtLtPlugin(TaggingPlugin):
